@@ -28,6 +28,11 @@ CLAIMED["C05"] = ("static lock-set / atomic-consistency discipline over go/cfg (
   "Trusts go/types, go/cfg, that goroutines start only at go statements, and that composite literals initialise before publication. Does not decide general deadlock freedom or monotonicity of intermediate renders.",
   "DESIGN.md §3 C05, §2.1 E-LOCK")
 
+CLAIMED["C16"] = ("static: map-iteration order analysis (range-over-map bodies classified, collected slices must be sorted before use), constant evaluation of the escape table against the JSON grammar's mandatory escapes, parameter-to-buffer flow rule in JsonObjectBuilder, rune-narrowing lint with guard facts",
+  "Decides that no JSON text is produced in hash-map order, that the escape table covers every character JSON requires to be escaped and maps each to its own escape, that keys and values reach the buffer only through escape() (raw literals only when constant or isNumeric-checked), and that no rune is truncated to a byte. Necessary conditions of valid/faithful/deterministic; exhaustive over the code, not over captures.",
+  "Trusts strings.Builder / range-over-string. Does not decide the numeric-literal grammar of isNumeric (a hand-written recogniser) nor decoded equality for every input.",
+  "DESIGN.md §3 C16")
+
 PENDING_REASON = "static check for this property is designed in DESIGN.md §3 but not yet built in this revision of /verif; not claimed until it runs"
 
 def main():
